@@ -10,6 +10,13 @@ if ! CARGO_PROFILE_DEV_DEBUG=false cargo build --offline -q --manifest-path /rep
     tail -40 "$VERIF_DIR/sim/target/cli-build.log" >&2
     exit 2
 fi
+if [ "${VERIF_CLI_RELEASE:-}" = 1 ]; then
+    if ! cargo build --release --offline -q --manifest-path /repo/Cargo.toml --bin lace --target-dir "$VERIF_DIR/sim/target/cli" 2>"$VERIF_DIR/sim/target/cli-build.log"; then
+        echo "harness error: release build of the lace binary failed" >&2
+        tail -40 "$VERIF_DIR/sim/target/cli-build.log" >&2
+        exit 2
+    fi
+fi
 SHIM_SRC="$VERIF_DIR/worldb/faultfs.c"
 SHIM_OUT="$VERIF_DIR/sim/target/faultfs.so"
 if [ -f "$SHIM_SRC" ]; then
